@@ -54,12 +54,19 @@ def shard(binpath, seed, sh, ndocs, rsa_share):
             pool = ["rsa-4096-a", "rsa-3072-a"]
         signers = rng.sample(pool, rng.choice([1, 1, 2, 3]) if len(pool) > 2 else 1)
         via = rng.choice(["new", "builder", "raw_builder", "raw_builder_pretty", "api", "api_builder"])
+        shadow = False
+        if via.startswith("api") and doc["_type"] == "link" and rng.random() < 0.2:
+            # a value only the builders can make: an extra by-product field carrying the name of a named one
+            doc = copy.deepcopy(doc)
+            doc["byproducts"]["\u0001other:" + rng.choice(["stdout", "stderr"])] = rng.choice(["shadow", "", "x\ny"])
+            shadow = True
         reqs.append({"op": "sign", "signed": doc, "signers": signers, "via": via, "writers": True})
-        plans.append((doc, signers, via))
+        plans.append((doc, signers, via if not shadow else via + "+shadowed_byproduct"))
     sobs = common.run_batch(binpath, reqs)
     cases = []
     for (doc, signers, via), so in zip(plans, sobs):
         if "ok" not in so and via.startswith("api") and "programming:" in str(so.get("err", "")):
+            res.classes["api_path_cannot_express_document"] += 0
             res.classes["api_path_cannot_express_document"] += 1
             continue
         if "ok" not in so:
@@ -71,6 +78,8 @@ def shard(binpath, seed, sh, ndocs, rsa_share):
         auth = [W.pub(k) for k in signers]
         base = {"doc_is": doc["_type"], "signers": signers, "via": via, "keyclass": "+".join(sorted({keyclass(k) for k in signers}))}
         for wname in WRITERS:
+            if via.endswith("+shadowed_byproduct") and wname in ("compact", "pretty"):
+                continue      # serde's own streaming writers would repeat the member; the library's writers are the subject
             if wname not in out:
                 res.violate("writer-fails:" + wname, f"{wname} writer failed on a signed block", None, so, "text")
                 continue
